@@ -8,6 +8,7 @@ import (
 	"bufio"
 	"fmt"
 	"os"
+	"strconv"
 	"strings"
 	"time"
 )
@@ -30,7 +31,10 @@ func main() {
 	in := bufio.NewReaderSize(os.Stdin, 1<<20)
 	out := bufio.NewWriterSize(os.Stdout, 1<<16)
 	defer out.Flush()
-	deadline := 5 * time.Second
+	deadline := 1500 * time.Millisecond
+	if ms, err := strconv.Atoi(os.Getenv("GODRV_DEADLINE_MS")); err == nil && ms > 0 {
+		deadline = time.Duration(ms) * time.Millisecond
+	}
 	for {
 		line, err := in.ReadString('\n')
 		if len(line) == 0 && err != nil {
